@@ -282,6 +282,16 @@ func runC20(c *core.Ctx) {
 			wireSpec = &cp
 			c.Probe("duplicate-extension-id")
 		}
+		if spec.profile == profOneByte && len(spec.exts) >= 1 && len(spec.csrc) < 8 && t.Chance(1, 25) {
+			// more one-byte elements than there are ids (14): only a peer can send that, ids repeat necessarily
+			cp := *wireSpec
+			cp.exts = append([]extEl(nil), wireSpec.exts...)
+			for n := 15 + t.Intn(20); len(cp.exts) < n; {
+				cp.exts = append(cp.exts, extEl{uint8(1 + t.Intn(14)), t.Bytes(1 + t.Intn(4))})
+			}
+			wireSpec = &cp
+			c.Probe("more-one-byte-elements-than-ids")
+		}
 		w.Send(datagram{frame: k, b: wireSpec.encode(), meta: wireSpec})
 		loop.After(int64(100_000+t.Intn(10_000_000)), func() { send(k + 1) })
 	}
